@@ -496,7 +496,7 @@ func runC19(ctx *core.Ctx) {
 	ctx.Assume("package state is observed through behaviour (probe battery) and pointer ranges, not through a memory snapshot of package variables", "workers share the process; a violation corrupting package state may cascade into later sequences of the same run (the first one is reported)")
 	ops := c19Ops(ctx.Tier)
 	n := len(ops)
-	depth := tierN(ctx, 3, 4)
+	depth := sz(ctx, 3, 3, 4)
 	total := 0
 	for d, pow := 1, n; d <= depth; d, pow = d+1, pow*n {
 		dd, pp := d, pow
@@ -523,7 +523,7 @@ func runC19(ctx *core.Ctx) {
 	S := alpha.Scalars(true)
 	pts := alpha.Points(true)
 	for i, k := range S {
-		if i%tierN(ctx, 4, 1) != 0 {
+		if i%sz(ctx, 4, 4, 1) != 0 {
 			continue
 		}
 		q := ptOf(pts[i%len(pts)], []int{0, 6, 5, 3}[i%4])
